@@ -52,6 +52,9 @@ func zzRunOnce(task, lock, rlock, wlock string) (commservices.LockMap, error) {
 	if len(capt.got) != 1 {
 		return nil, nil
 	}
+	// the task's own namespaces (what commands nested in its body will see)
+	// keep the LOCK namespace of the scope the task was started in
+	nd.Assert(capt.got[0].Namespaces != nil && capt.got[0].Namespaces.Lock() == lock, "C15/run-task-inherits-lock-namespace")
 	return capt.got[0].Lock, nil
 }
 
